@@ -409,6 +409,21 @@ func setupFault(it *FaultItem, ks *sut.KeySet, dir string) (*sut.Instance, *Worl
 		}
 		_ = cerr
 	}
+	if it.Call.Op == "Initialize" {
+		// the faulted call is Initialize of a second process over the tape the history wrote:
+		// k=0 without an index (full re-index), k=1 with the index the first process left
+		inst.Close()
+		if it.Call.K == 0 {
+			for _, suffix := range []string{"", "-wal", "-shm", "-journal"} {
+				_ = os.Remove(inst.DB + suffix)
+			}
+		}
+		inst2, err := sut.OpenPaths(inst.Drive, inst.DB, dir, it.Cfg, ks, in.wrap())
+		if err != nil {
+			return nil, nil, nil, err
+		}
+		return inst2, NewWorld(inst2, it.Conc), in, nil
+	}
 	return inst, w, in, nil
 }
 
